@@ -36,31 +36,44 @@ def _snap_content(sec):
         return {'error': type(e).__name__}
 
 
-def snap_file(f):
+def _iter_ids(node):
+    # what iterating the container yields (ids only)
+    try:
+        return [getattr(s, 'section_id', None) for s in node]
+    except Exception as e:
+        return 'error:' + type(e).__name__
+
+
+def snap_file(f, iters=False):
     try:
         return {'id': f.section_id, 'options': plain(f.options),
+                **({'iter': _iter_ids(f)} if iters else {}),
                 'meta': _snap_content(f.meta_section),
                 'diff': _snap_content(f.diff_section)}
     except Exception as e:
         return {'error': type(e).__name__}
 
 
-def snap_change(c):
+def snap_change(c, iters=False):
     try:
         return {'id': c.section_id, 'options': plain(c.options),
+                **({'iter': _iter_ids(c)} if iters else {}),
                 'preamble': _snap_content(c.preamble_section),
                 'meta': _snap_content(c.meta_section),
-                'files': [snap_file(f) for f in c.files]}
+                'files': [snap_file(f, iters) for f in c.files]}
     except Exception as e:
         return {'error': type(e).__name__}
 
 
-def snap_tree(t):
+def snap_tree(t, iters=False):
+    """iters: also what iterating each container yields (section ids) -
+    used by the per-step invariants."""
     try:
         return {'id': t.section_id, 'options': plain(t.options),
+                **({'iter': _iter_ids(t)} if iters else {}),
                 'preamble': _snap_content(t.preamble_section),
                 'meta': _snap_content(t.meta_section),
-                'changes': [snap_change(c) for c in t.changes]}
+                'changes': [snap_change(c, iters) for c in t.changes]}
     except Exception as e:
         return {'error': type(e).__name__}
 
@@ -202,12 +215,12 @@ def allowed_prefixes(op, before_tree):
             return [node_prefix(path) + '/meta']
         elif name == 'add_change':
             n = len(before_tree.get('changes', []))
-            return ['/changes/%d' % n, '/changes/len']
+            return ['/changes/%d' % n, '/changes/len', '/iter']
         elif name in ('add_file', 'clone_file'):
             ci = int(op.get('change', 0))
             n = len(before_tree['changes'][ci]['files'])
             return ['/changes/%d/files/%d' % (ci, n),
-                    '/changes/%d/files/len' % ci]
+                    '/changes/%d/files/len' % ci, '/changes/%d/iter' % ci]
     except Exception:
         return None
 
@@ -355,7 +368,8 @@ def run_dom_op(world, st, aid, op):
     if st.snaps is not None and set(st.snaps) == set(st.trees):
         before = st.snaps
     else:
-        before = {k: snap_tree(t) for k, t in sorted(st.trees.items())}
+        before = {k: snap_tree(t, True)
+                  for k, t in sorted(st.trees.items())}
 
     targets = [op.get('tree')] if name not in ('eq', 'ne') else []
     res = {'actor': aid, 'op': op, 'outcome': 'skip'}
@@ -380,7 +394,7 @@ def run_dom_op(world, st, aid, op):
              res.get('exc', {}).get('type'))
 
     # ---- invariants -----------------------------------------------------
-    after = {k: snap_tree(t) for k, t in sorted(st.trees.items())}
+    after = {k: snap_tree(t, True) for k, t in sorted(st.trees.items())}
     st.snaps = after
 
     for k in sorted(before):
@@ -706,7 +720,30 @@ def _do(world, st, op):
 
             return v
 
-        if how == 'reverse_keys' and isinstance(cur, dict):
+        def grow(v):
+            # one more item at the end of the first list found (depth first)
+            if isinstance(v, list):
+                return v + ['one-more'], True
+            elif isinstance(v, dict):
+                out = {}
+                done = False
+
+                for k, x in v.items():
+                    if not done:
+                        x, done = grow(x)
+
+                    out[k] = x
+
+                return out, done
+
+            return v, False
+
+        if how == 'list_append' and isinstance(cur, dict):
+            new, done = grow(copy.deepcopy(cur))
+
+            if not done:
+                new = dict(new, tags=['one-more'])
+        elif how == 'reverse_keys' and isinstance(cur, dict):
             new = rev(copy.deepcopy(cur))
         elif how == 'retype' and isinstance(cur, dict):
             new = retype(copy.deepcopy(cur))
